@@ -48,13 +48,26 @@ func (ss *SlotScope) SetSlot(name string, content *SlotContent) {
 	ss.Slots[name] = content
 }
 
+// asciiLower lower-cases the ASCII letters of s and leaves every other character alone.
+func asciiLower(s string) string {
+	b := []byte(s)
+	for i, c := range b {
+		if c >= 'A' && c <= 'Z' {
+			b[i] = c + ('a' - 'A')
+		}
+	}
+	return string(b)
+}
+
 // evalSlot processes a <slot> element and inserts the appropriate content.
 // If slot content was provided by the component user, use that.
 // Otherwise, render the fallback content (children of the slot element).
 func (v *Vue) evalSlot(ctx VueContext, node *html.Node, slotScope *SlotScope) ([]*html.Node, error) {
 	// The includer names the slot in an attribute key (v-slot:name, #name), which the HTML
 	// parser lower-cases: slot names are matched without regard to case
-	slotName := strings.ToLower(helpers.GetAttr(node, "name"))
+	// (ASCII letters only, like the parser: #Ärger stays #Ärger there; white space around the
+	// name is not part of it)
+	slotName := asciiLower(strings.TrimSpace(helpers.GetAttr(node, "name")))
 	if slotName == "" {
 		slotName = "default"
 	}
@@ -122,8 +135,8 @@ func (v *Vue) evalSlot(ctx VueContext, node *html.Node, slotScope *SlotScope) ([
 							ctx.stack.Set(name, slotProps[name])
 						}
 					}
-				} else if scopedVarName != "" {
-					ctx.stack.Set(scopedVarName, slotProps)
+				} else if trimmed != "" {
+					ctx.stack.Set(trimmed, slotProps)
 				} else {
 					// Set the slot props directly in the context
 					for k, v := range slotProps {
